@@ -46,7 +46,7 @@ if HR is not None:
     for fn, ids in HR.REGISTRY:
         reg(fn, *ids)
 
-for _modname in ('rules_hir2', 'rules_hir3', 'rules_hir4', 'rules_hir5', 'rules_hir6'):
+for _modname in ('rules_hir2', 'rules_hir3', 'rules_hir4', 'rules_hir5', 'rules_hir6', 'rules_mir'):
     try:
         _m = __import__('vflib.' + _modname, fromlist=['REGISTRY'])
     except ImportError:
@@ -61,14 +61,19 @@ def inst_has(*subs):
 
 # property -> list of (rule id, optional instance filter)
 PROPS = {
-    'C01': [('ALIAS-SOLE', None), ('GRAMMAR', None), ('WIRE-1', inst_has('field[', 'typename-variant', 'floor/response-field', 'floor/spread', 'floor/typename')),
+    'C01': [('ALIAS-SOLE', None), ('ALIAS-KEY', None), ('GRAMMAR', None), ('WIRE-1', inst_has('field[', 'typename-variant', 'floor/response-field', 'floor/spread', 'floor/typename')),
             ('WIRE-2', inst_has('field[')), ('SEL-FLATTEN', None), ('SEL-EMPTY-ENUM', None), ('ATTR-PRECISION', None),
             ('SEL-ITEM', None), ('SEL-CONSUME', None), ('SEL-PAIR', None), ('TAG-AGREE', None), ('VARIANTS-EXHAUSTIVE', None),
             ('EXTENSIONS', None), ('ID-TYPING', None), ('ID-ABSENT', None), ('TYPES-2', None), ('TYPES-4', None)],
     'C02': [('DERIVE-DEDUP', None), ('REACH-KINDS', None), ('SCALAR-BUILTIN', None), ('GRAMMAR', None), ('SERDE-CRATE', None), ('SERDE-PATH', None), ('IDENT-1', None), ('IDENT-2', None), ('KW-TABLE', None),
-            ('ID-TYPING', None), ('ID-SHAPE', None), ('SEL-PAIR', None), ('DEF-CLOSURE', None), ('ONE-ENTRY', None), ('TYPES-2', None)],
+            ('ID-TYPING', None), ('ID-SHAPE', None), ('SEL-PAIR', None), ('DEF-CLOSURE', None), ('ONE-ENTRY', None), ('TYPES-2', None),
+            # finite-size types: recursion must be found and boxed, or the module does not type-check (E0072)
+            ('VISITED-DISCIPLINE', None), ('BOX-SITES', None), ('REACH-INPUT', None), ('REACH-FRAGMENT', None),
+            ('REC-GUARD', inst_has('contains_type_without_indirection', 'contains_fragment', 'fragment_is_recursive', 'input_is_recursive'))],
     'C03': [('GRAMMAR', None), ('TYPES-1', None), ('TYPES-2', None), ('TYPES-4', None), ('TYPES-3', None), ('ATTR-PRECISION', None),
-            ('OTHER-GUARD', None), ('VARIANTS-EXHAUSTIVE', None), ('WIRE-1', inst_has('typename-variant')), ('EXTENSIONS', None), ('SIB-2', None)],
+            ('OTHER-GUARD', None), ('VARIANTS-EXHAUSTIVE', None), ('WIRE-1', inst_has('typename-variant')), ('EXTENSIONS', None), ('SIB-2', None),
+            # the tagged enum (and its Unknown variant) exists only because validation forces __typename onto the abstract type itself
+            ('TYPENAME-SAME-TYPE', None), ('TYPENAME-MATRIX', None)],
     'C04': [('GRAMMAR', None), ('WIRE-1', inst_has('ResolvedVariable', 'StoredInputType', 'enum-value', 'floor/variable', 'floor/input', 'floor/oneof')),
             ('WIRE-2', inst_has('ResolvedVariable', 'StoredInputType')), ('SKIP-NONE', None), ('ONEOF-SHAPE', None),
             ('VARS-ORIGIN', None), ('TYPES-2', None), ('TYPES-4', None)],
@@ -79,10 +84,10 @@ PROPS = {
     'C07': [('SCALAR-BUILTIN', None), ('SIB-1', None), ('SIB-2', None), ('SIB-3', None), ('TYPES-3', None), ('JSON-SHAPES', None), ('EXT-DISPATCH', None),
             ('ROOTS-AGREE', None), ('EXTENSIONS', None), ('ID-ORDER', None)],
     'C08': [('STATE-INVENTORY', None), ('CACHE-ACCESS', None), ('CACHE-KEY', None), ('LOCK-DISCIPLINE', None), ('NO-AMBIENT', None), ('ORDERED', None)],
-    'C09': [('WIRE-1', inst_has('typename-variant')), ('NORM-ID', None), ('GRAMMAR', None), ('OPT-1', None), ('OPT-2', None), ('DERIVE-ONLY', None)],
+    'C09': [('WIRE-1', inst_has('typename-variant', 'OPERATION_NAME')), ('BODY-CONST', None), ('NORM-ID', None), ('GRAMMAR', None), ('OPT-1', None), ('OPT-2', None), ('DERIVE-ONLY', None)],
     'C10': [('GRAMMAR', None), ('ENUM-SHAPE', None), ('ENUM-OPEN', None), ('ENUM-ZIP', None), ('WIRE-1', inst_has('enum-value')),
             ('OPT-1', inst_has('enum-value')), ('DERIVE-FILTER', None)],
-    'C11': [('GRAMMAR', None), ('KW-TABLE', None), ('IDENT-1', None), ('IDENT-2', None), ('WIRE-1', inst_has('field[', 'variant[', 'enum-value', 'floor/')),
+    'C11': [('ALIAS-KEY', None), ('GRAMMAR', None), ('KW-TABLE', None), ('IDENT-1', None), ('IDENT-2', None), ('WIRE-1', inst_has('field[', 'variant[', 'enum-value', 'floor/')),
             ('WIRE-2', None)],
     'C12': [('VISITED-DISCIPLINE', None), ('REACH-KINDS', None), ('GRAMMAR', None), ('BOX-SITES', None), ('BOX-INVISIBLE', None), ('REACH-INPUT', None), ('REACH-FRAGMENT', None),
             ('REC-GUARD', inst_has('contains_type_without_indirection', 'contains_fragment', 'fragment_is_recursive', 'input_is_recursive'))],
@@ -91,10 +96,20 @@ PROPS = {
             ('ATTR-PRECISION', inst_has('deny_unknown', 'struct/'))],
     'C15': [('ENV-ACCEPT', None), ('ENV-ROUNDTRIP', None), ('DISPLAY-FORMAT', None), ('DISPLAY-TOTAL', None)],
     'C16': [('NORM-ID', None), ('GRAMMAR', None), ('ID-SHAPE', None), ('ID-ATTACH', None), ('ID-TYPING', None), ('ID-ABSENT', None), ('ID-HELPER', None)],
-    'C17': [('VISITED-DISCIPLINE', None), ('DOUBLE-DESCENT', None), ('REC-GUARD', None), ('LOOP-PROGRESS', None), ('NO-ABORT', None)],
+    'C17': [('VISITED-DISCIPLINE', None), ('DOUBLE-DESCENT', None), ('REC-GUARD', None), ('LOOP-PROGRESS', None), ('NO-ABORT', None), ('PIPE-DRAIN', None)],
     'C18': [('SCAN-GUARD', None), ('VALUE-PARSE', None), ('ATTR-PLUMB', None), ('ATTR-DEFAULTS', None), ('ATTR-PATHS', None), ('ATTR-MODE', None)],
-    'C19': [('FLAG-PLUMB', None), ('OUT-CONTENT', None), ('OUT-PATH', None), ('NO-WRITE-ON-ERROR', None), ('ONE-ENTRY', None),
+    'C19': [('PIPE-DRAIN', None), ('FLAG-PLUMB', None), ('OUT-CONTENT', None), ('OUT-PATH', None), ('NO-WRITE-ON-ERROR', None), ('ONE-ENTRY', None),
             ('ERR-PROPAGATED', inst_has('generate::'))],
     'C20': [('REQ-BUILD', None), ('DOC-PAIRING', None), ('DOC-TABLE', None), ('DOC-CONTENT', None), ('STATUS', None), ('OUT-AFTER-SUCCESS', None),
             ('HEADER-GUARDS', None), ('ERR-PROPAGATED', inst_has('introspection_schema::'))],
+}
+
+
+# thorough tier: the ordering obligations decided again on the MIR control-flow graph (real dominators, witness paths)
+PROPS_THOROUGH = {
+    'C06': [('MIR-VALIDATE', None)],
+    'C12': [('MIR-VISITED', None)],
+    'C17': [('MIR-VISITED', None)],
+    'C19': [('MIR-WRITE-AFTER-GEN', None)],
+    'C20': [('MIR-WRITE-AFTER-OK', None)],
 }
